@@ -454,7 +454,8 @@ func Run(t *tr.W, thorough bool) {
 			scenReorgStop(t, r) // opens real stores: a few per run
 		}
 		if i%6 == 0 {
-			scenCFCheckptStop(t, rcf) // writes >= 16000 headers to real stores: two per quick run
+			// writes >= 16000 headers to real stores: two per quick run, one with each kind of reader
+			scenCFCheckptStop(t, rcf, []string{"stalled", "slow"}[(i/6)%2])
 		}
 	}
 	// recorded finding F8, reproduced once per run (costs one deadline)
